@@ -200,9 +200,30 @@ def mini_sscanf_full(s, fmt):
     return 0
 
 
+_UNIT = {"u": None}
+_LIBSCAN = ("strcspn", "strspn", "strchr", "strlen", "strpbrk", "strchrnul", "__builtin_strchr", "__builtin_strlen", "__builtin_strcspn", "__builtin_strspn")
+
+
+def _cursor_helper(name):
+    """a small helper of the unit that advances a cursor handed to it as `const char **` and calls nothing but the
+    skipping primitives and the C string scans"""
+    u = _UNIT["u"]
+    if u is None or not name:
+        return False
+    hs = [h for h in u.functions.get(name, []) if u.body(h) is not None]
+    if len(hs) != 1 or not any((A.qtype(p_) or "").count("*") == 2 and "char" in (A.qtype(p_) or "") for p_ in u.params(hs[0])):
+        return False
+    if sum(1 for _ in A.walk(u.body(hs[0]))) > 150:
+        return False
+    return all(A.callee_name(c) in ("skip_while", "skip_fmt", "__ctype_b_loc") + _LIBSCAN for c in A.calls_in(u.body(hs[0])))
+
+
 def _is_skip_stmt(s):
     """statement consisting only of white-space / comment skipping"""
     calls = [A.callee_name(c) for c in A.calls_in(s)]
+    helpers = [c for c in calls if c not in ("skip_while", "skip_fmt", "__ctype_b_loc") and _cursor_helper(c)]
+    if helpers and all(c in ("skip_while", "skip_fmt", "__ctype_b_loc") or c in helpers for c in calls):
+        return True
     if any(c not in ("skip_while", "skip_fmt", "__ctype_b_loc") for c in calls):
         return False
     isspace_macro = any(y.get("kind") == "DeclRefExpr" and (y.get("referencedDecl") or {}).get("name") == "_ISspace" for y in A.walk(s))
@@ -213,6 +234,7 @@ def separator_runs(unit, fn):
     """[(statements, cursor decl id)] - maximal runs of skipping statements around each `while(*X == '%')` loop"""
     out = []
     seen = set()
+    _UNIT["u"] = unit
     for w in A.walk(unit.body(fn)):
         if w.get("kind") != "WhileStmt":
             continue
@@ -357,6 +379,16 @@ def run_separator(unit, stmts, cur_id, text):
                     p += 1
                 ev.env[cur_id] = p + 4096
                 return 0
+            if not through and name not in SEPARATOR_HELPERS:
+                # any other helper of the unit that is handed `&cursor`: evaluated in place on the rest of the text
+                hs_ = [h_ for h_ in unit.functions.get(name or "", []) if unit.body(h_) is not None]
+                k_ = [i_ for i_, a_ in enumerate(args) if A.strip_casts(a_).get("kind") == "UnaryOperator" and A.strip_casts(a_).get("opcode") == "&" and
+                      A.ref_id(A.kids(A.strip_casts(a_))[0]) == cur_id]
+                if len(hs_) == 1 and len(k_) == 1 and len(unit.params(hs_[0])) == len(args) and (A.qtype(unit.params(hs_[0])[k_[0]]) or "").count("*") == 2:
+                    at = ev.env[cur_id] - 4096
+                    adv = run_separator(unit, A.kids(unit.body(hs_[0])), ("through", unit.params(hs_[0])[k_[0]]["id"]), text[at:])
+                    ev.env[cur_id] += adv
+                    return adv
             if name in ("strcspn", "strspn", "strchr", "strlen", "strpbrk", "strchrnul", "__builtin_strchr", "__builtin_strlen", "__builtin_strcspn", "__builtin_strspn"):
                 # the C string scans, on the probe text
                 a0 = ev.ev(args[0])
